@@ -109,6 +109,7 @@ func (it *Interp) globalAddr(g *ssa.Global) *Value {
 	if p, ok := it.globals[g]; ok {
 		return p
 	}
+	it.snapshotGlobal(g)
 	it.ensureInit(g.Pkg)
 	if p, ok := it.globals[g]; ok {
 		return p
